@@ -201,6 +201,8 @@ func Run(r *common.Run) error {
 				runSess(r, parseReqs(f[2]), replayable(f[3]), "replay")
 			case "rcpt":
 				runRcpt(r, parseIDs(f[2]), replayable(f[3]), "replay")
+			case "wrap":
+				runWrap(r, f[2][0], f[3], "replay")
 			}
 		}
 		return nil
@@ -226,6 +228,8 @@ func Run(r *common.Run) error {
 		r.Notes = append(r.Notes, "race-detector run: concurrent scenarios and corpora only")
 		return nil
 	}
+	// the helpers that own the response they wait for, over every reply shape
+	runWraps(r)
 	// schedules generated from the Lean LTS by the driver
 	nGen := 0
 	if bin := findDriver(r.Dir); bin != "" {
